@@ -109,7 +109,7 @@ def ledger(index, rep):
         m += 1
         end = it.to_rat(animal.attrs["current_population"])
         want = cur - (sd + hh + hs)
-        neg = any(e == Rat.const(0) - want and s for (e, s) in facts_from(it, dec))
+        neg = any(e == Rat.const(0) - want for (e, s) in facts_from(it, dec))   # this path knows herd - losses < 0 (or <= 0: then 0 is the same value)
         if neg:
             rep.check(end.is_zero(), rule, "final: clamp at zero", "a negative herd is not clamped to zero", loc=loc(ANIM, ff))
         else:
